@@ -28,8 +28,8 @@ Section Generic.
       forall s, reach s -> terminating s = true ->
       forall sched, fair_rounds step (rank s) s sched -> fin (run step sched s) = true.
 
-  (* no handler call BEGINS after `quiet` holds (quiet: Run returned and Terminated [and, for a
-     multiplexed source, its inner sources returned from their own Run]) *)
+  (* no handler call BEGINS after `quiet` holds (quiet: Run returned [and Terminated]; for the multiplexed
+     source also the weaker "the terminating channel is closed") *)
   Definition NoCallAfter (quiet : state -> Prop) (hbegun : state -> nat) : Prop :=
     forall s, quiet s -> forall sched, hbegun (run step sched s) = hbegun s.
 End Generic.
@@ -41,7 +41,9 @@ Definition et_reach (s : Et.state) : Prop := exists sup sched, s = run (Et.step 
 Definition jn_reach (lf fa : bool) (s : Jn.state) : Prop :=
   exists fs ls sched, s = run (Jn.step (Jn.mkcfg true lf fa)) sched (Jn.init fs ls).
 Definition sb_reach (s : Sb.state) : Prop := exists cap ps sched, s = run Sb.step sched (Sb.init cap ps).
-Definition mx_reach (s : Mx.state) : Prop := exists n sup sched, s = run Mx.step sched (Mx.init n sup).
+(* multiplexed: `fx` = with (true: the code with repo_patches/C12_fix_mux_no_call_after_shutdown.diff) or without (false)
+   the test of the terminating channel in the handler wrapper *)
+Definition mx_reach (fx : bool) (s : Mx.state) : Prop := exists n sup sched, s = run (Mx.step fx) sched (Mx.init n sup).
 Definition fs_reach (s : Fs.state) : Prop := exists st sa sched, s = run Fs.step sched (Fs.init st sa).
 
 (* ---- c12_returns *)
@@ -52,7 +54,7 @@ Definition C12_returns_joining : Prop :=
 Definition C12_returns_subscription : Prop :=
   Returns Sb.step sb_reach (fun s => is_close (Sb.sdst s)) Sb.terminating Sb.done.
 Definition C12_returns_multiplexed : Prop :=
-  Returns Mx.step mx_reach (fun s => is_close (Mx.sdst s)) Mx.terminating Mx.done.
+  forall fx, Returns (Mx.step fx) (mx_reach fx) (fun s => is_close (Mx.sdst s)) Mx.terminating Mx.done.
 Definition C12_returns_file : Prop :=
   Returns Fs.step fs_reach (fun s => is_close (Fs.sdst s)) Fs.terminating Fs.done.
 
@@ -73,31 +75,32 @@ Definition C12_returns : Prop :=
   C12_returns_file.
 
 (* ---- c12_no_call_after *)
-Definition mx_all_returned (s : Mx.state) : Prop :=
-  forall k i, nth_error (Mx.inners s) k = Some i -> Mx.i_returned i = true.
 Definition C12_no_call_after : Prop :=
   (forall fx, NoCallAfter (Et.step fx) (fun s => Et.returned s = true) Et.hbegun) /\
   (forall c, NoCallAfter (Jn.step c) (fun s => Jn.returned s = true) Jn.hbegun) /\
   NoCallAfter Sb.step (fun s => Sb.returned s = true) Sb.hbegun /\
   NoCallAfter Fs.step (fun s => Fs.returned s = true) Fs.hbegun /\
-  (* a multiplexed source does not own the goroutines of its inner sources: relative to their having returned *)
-  NoCallAfter Mx.step (fun s => Mx.returned s = true /\ Mx.terminated s = true /\ mx_all_returned s) Mx.hbegun /\
+  (* multiplexed (repaired wrapper): after Run returned and Terminated no handler call begins, whatever the inner
+     sources' goroutines still do (no hypothesis on them: an inner source waiting for handlerLock gives up) ... *)
+  NoCallAfter (Mx.step true) (fun s => Mx.returned s = true /\ Mx.terminated s = true) Mx.hbegun /\
+  (* ... indeed none begins once the terminating channel is closed, in ANY state (reachable or not), under every schedule *)
+  NoCallAfter (Mx.step true) (fun s => Mx.terminating s = true) Mx.hbegun /\
   (* ... and it never starts an inner source once its terminating channel is closed *)
-  (forall s t k i, Mx.terminating s = true -> nth_error (Mx.inners (Mx.step s t)) k = Some i -> Mx.started i = true ->
+  (forall fx s t k i, Mx.terminating s = true -> nth_error (Mx.inners (Mx.step fx s t)) k = Some i -> Mx.started i = true ->
      exists i0, nth_error (Mx.inners s) k = Some i0 /\ Mx.started i0 = true).
 
 (* ---- c12_mutex: no handler call begins while another one is in progress *)
 Definition C12_mutex : Prop :=
-  forall nslots sup sched,
-    let s := run Mx.step sched (Mx.init nslots sup) in Mx.overlap s = false /\ Mx.hactive s <= 1.
+  forall fx nslots sup sched,
+    let s := run (Mx.step fx) sched (Mx.init nslots sup) in Mx.overlap s = false /\ Mx.hactive s <= 1.
 
 (* ---- c12_fail_stops_all *)
 Definition C12_fail_stops_all : Prop :=
   (* the goroutine that got the handler error is enabled and its next step calls Shutdown (wins the once or finds it won) *)
-  (forall s k i b, nth_error (Mx.inners s) k = Some i -> Mx.i_pc i = Mx.IUnl b false -> Mx.sdst (Mx.step s (Mx.TIn k)) <> None) /\
+  (forall fx s k i b, nth_error (Mx.inners s) k = Some i -> Mx.i_pc i = Mx.IUnl b false -> Mx.sdst (Mx.step fx s (Mx.TIn k)) <> None) /\
   (* once Terminated (reached by C12_returns_multiplexed), every inner source that was ever started is shut down *)
-  (forall nslots sup sched,
-     let s := run Mx.step sched (Mx.init nslots sup) in
+  (forall fx nslots sup sched,
+     let s := run (Mx.step fx) sched (Mx.init nslots sup) in
      Mx.terminated s = true ->
      forall k i, nth_error (Mx.inners s) k = Some i -> Mx.started i = true -> Mx.i_term i = true).
 
@@ -119,3 +122,13 @@ Definition C12_eternal_unfixed_hangs : Prop :=
 Definition C12_joining_unfixed_hangs : Prop :=
   exists lf fa fs ls sched, let c := Jn.mkcfg false lf fa in let s := run (Jn.step c) sched (Jn.init fs ls) in
     Jn.terminated s = true /\ Jn.returned s = false /\ forall t, Jn.step c s t = s.
+
+(* ---- the handler wrapper of the multiplexed source before its repair (defect D1 of the hypothesis audit): a reachable
+   state in which Run has returned, Terminated is reached and every inner source is shut down, from which a handler call
+   BEGINS — after an external Shutdown (1st clause) and after the Shutdown made by a handler FAILURE (2nd clause) *)
+Definition mx_late_call (s : Mx.state) : Prop :=
+  mx_reach false s /\ Mx.returned s = true /\ Mx.terminated s = true /\
+  (forall k i, nth_error (Mx.inners s) k = Some i -> Mx.i_term i = true) /\
+  exists sched, Mx.hbegun (run (Mx.step false) sched s) = S (Mx.hbegun s).
+Definition C12_mux_unfixed_late_call : Prop :=
+  (exists s, mx_late_call s /\ Mx.failed s = false) /\ (exists s, mx_late_call s /\ Mx.failed s = true).
